@@ -9,7 +9,7 @@ import Verif.Model.Token
        hosts=<xname:v6:parses:xnorm:xstripped,…>
        provs=<ty:xname:xkid:xclient:xaudience:xissuer:xidEsc:init:sshEnabled:disableRenewal:renewAfterExpiry,…>
        parsed=0|1 kid= iss= sub= aud=<xraw:xstripped,…> exp=<s|!> nbf= iat= azp= tid= email= lbt=0|1
-       frag= fragesc= hasssh=0|1 sshtype=0|1 nebssh=0|1 pop=<!|after:before:host:user:serialIsSub> cr=<8 bits,…> [cl=<5 bits,…>]
+       frag= fragesc= hasssh=0|1 sshtype=0|1 nebssh=0|1 [nebsans=0|1] pop=<!|after:before:host:user:serialIsSub> cr=<8 bits,…> [cl=<5 bits,…>]
      -> ok:x<name of the answering provisioner> | reject | crash
         with http=1 (request sent through the api handler, database tables diffed):
         ok | reject:pre (refused before UseToken) | reject:post (refused by the provisioner) | crash
@@ -115,6 +115,7 @@ def evalAuth (kv : List (String × String)) : Option String := do
     hasSSH := (← bool? (← lookup kv "hasssh"))
     sshTypeOk := (← bool? (← lookup kv "sshtype"))
     nebSshOk := (← bool? (← lookup kv "nebssh"))
+    nebSansOk := (← bool? ((lookup kv "nebsans").getD "1"))
     pop := (← pop? (← lookup kv "pop"))
     cr := (← list? cr? (← lookup kv "cr"))
     cl := (← list? cl? ((lookup kv "cl").getD "-")) }
